@@ -305,6 +305,12 @@ func runBisyncSim(r *Run, prop string, cfg PipeCfg, st *Stream, maxCrashes int, 
 				o.observe()
 				ps.startIncarnation()
 			}})
+			acts = append(acts, pipeAction{"conn-loss", 2, func() {
+				crashes++
+				ps.connLoss(r.Sched())
+				o.observe()
+				ps.startIncarnation()
+			}})
 			// graceful stop + start with no traffic in between
 			if ph == 1 && idleRestarts < 2 {
 				acts = append(acts, pipeAction{"stop-start", 1, func() {
